@@ -606,6 +606,25 @@ def check_forward(ctx, fb):
                 names = [e[1].split('::')[-1] for e in impl]
                 if names != [f.n]:
                     ctx.report(rf, key, f.where, 'wrapper %s forwards to %s' % (f.n, names or 'nothing'))
+                elif f.ret != 'void' and f.n.startswith('try_lock'):
+                    # the wrapper answers what Impl answered: every return hands back the forwarded call itself or the
+                    # local it was stored in — never a value combined with something else (try_lock() || true)
+                    call = [c for c in f.calls() if c.get('cr', '').startswith('yaclib::detail::') and
+                            c['cn'].split('::')[-1] == f.n][0]
+                    holders = {v['id'] for d in f.own_nodes() if d['k'] == 'DeclStmt' for v in d['vars']
+                               if 'init' in v and (v['init'] == call['i'] or call['i'] in set(f.descendants(v['init'])))}
+                    for r in [x for x in f.own_nodes() if x['k'] == 'ReturnStmt' and x.get('ch')]:
+                        e = f.sn(r['ch'][0])
+                        while e is not None and e['k'] in ('ImplicitCastExpr', 'ParenExpr', 'ExprWithCleanups',
+                                                           'MaterializeTemporaryExpr', 'CXXConstructExpr') and \
+                                (e.get('ch') or e.get('args')):
+                            e = f.sn((e.get('args') or e.get('ch'))[0])
+                        ok = e is not None and (e['i'] == call['i'] or (e['k'] == 'DeclRefExpr' and e.get('id') in holders))
+                        if not ok:
+                            ctx.report(rf, key, f.loc(r), 'wrapper %s does not return what Impl::%s answered (%s): a '
+                                       'failed acquisition can be reported as a success' % (
+                                           f.n, f.n, f.text(r['ch'][0])[:60]))
+                            break
                     break
 
 
